@@ -75,7 +75,7 @@ def gen_case(rng):
     p['scale_graded'] = rng.random() < 0.5
     p['graded'] = {'J': rng.randint(2, 5), 'step': rng.choice([0.5, 1.0, 1.5, 2.0])}
     p['eps'] = 10.0 ** (-rng.randint(1, 12))
-    p['guess'] = rng.choice(['none', 'none', 'rank1', 'rank3', 'exact', 'perturbed'])
+    p['guess'] = rng.choice(['none', 'none', 'rank1', 'rank3', 'exact', 'perturbed', 'zeros', 'scaled_rank1', 'scaled_rank2'])
     p['nswp'] = None
     r = rng.random()
     if r < 0.2:
@@ -173,6 +173,14 @@ def build(p):
     if gk in ('rank1', 'rank3'):
         r = 1 if gk == 'rank1' else 3
         guess = TT(gen.rand_cores(outN, [1] + [r] * (d - 1) + [1], dt, g, outM))
+    elif gk == 'zeros':
+        guess = torchtt.zeros([(m, n) for m, n in zip(outM, outN)] if outM is not None else list(outN), dtype=gen.DTYPES[dt])
+    elif gk in ('scaled_rank1', 'scaled_rank2'):
+        # a low-rank guess of the same magnitude as the answer (whatever that magnitude is)
+        r = 1 if gk == 'scaled_rank1' else 2
+        guess = TT(gen.rand_cores(outN, [1] + [r] * (d - 1) + [1], dt, g, outM))
+        sc = gen.fro(exact) / max(gen.fro(gen.dense(guess)), 1e-300)
+        guess = TT([c * sc if k == 0 else c for k, c in enumerate(guess.cores)])
     elif gk in ('exact', 'perturbed'):
         if outM is None:
             guess = TT(exact.clone(), eps=1e-13) if d > 1 else TT(exact.clone())
